@@ -1792,7 +1792,11 @@ fn m_subscribe(sh: &Rc<MShared>, k: usize) {
         _ => {}
       }
     }
-    if conn.kind != ConnKind::Publish && conn.count() == 1 {
+    // (a replay whose source has terminated hands out history + terminal and never connects
+    // again - also not for a subscriber that arrives while another one is being handed the
+    // history)
+    let replay_over = conn.kind == ConnKind::Replay && conn.stored.borrow().is_some();
+    if conn.kind != ConnKind::Publish && conn.count() == 1 && !replay_over {
       conn_connect(sh);
     }
     // observers that were ended by a terminal during the (synchronous) connect
